@@ -565,6 +565,11 @@ func (e *Env) Step(w []string) (res string) {
 			e.Dead = true
 			return "err:" + classifyErr(err)
 		}
+		// the twin partial may have been built by replaying cached operation logs: merging it must give
+		// the same full store (this is where lost deleted prefixes would show)
+		if a, b := e.showKV(content(e.stores[n]), false), e.showKV(content(e.twins[n]), false); a != b {
+			e.Fail("C09/replayed-partial-merges-differently", fmt.Sprintf("original %s, with the replayed partial %s", a, b))
+		}
 		return "ok"
 	}
 	return "bad-step"
